@@ -106,10 +106,19 @@ def _run(stmts, truthy, env):
                 continue
             if isinstance(t, ast.Tuple) and all(isinstance(x, ast.Name) for x in t.elts):
                 # `self, args = args[0], args[1:]`: the receiver is taken off the positional arguments
+                # (or under another name: `self, positional = args[0], args[1:]` — the local then denotes `args`)
                 ids = [x.id for x in t.elts]
-                if "args" in ids and isinstance(s.value, ast.Tuple) and len(s.value.elts) == len(ids):
-                    v = s.value.elts[ids.index("args")]
-                    if isinstance(v, ast.Subscript) and _name(v.value) == "args":
+                if isinstance(s.value, ast.Tuple) and len(s.value.elts) == len(ids):
+                    rest = [i for i, v in enumerate(s.value.elts)
+                            if isinstance(v, ast.Subscript) and _name(v.value) == "args" and isinstance(v.slice, ast.Slice)
+                            and isinstance(v.slice.lower, ast.Constant) and v.slice.lower.value == 1
+                            and v.slice.upper is None and v.slice.step is None]
+                    first = [i for i, v in enumerate(s.value.elts)
+                             if isinstance(v, ast.Subscript) and _name(v.value) == "args" and isinstance(v.slice, ast.Constant)
+                             and v.slice.value == 0]
+                    if len(rest) == 1 and len(first) == 1 and len(ids) == 2:
+                        if ids[rest[0]] != "args":
+                            env[ids[rest[0]]] = "args"
                         continue
             raise _Stop(None)
         if isinstance(s, ast.Return):
